@@ -1,0 +1,59 @@
+//go:build verif
+
+package time
+
+import (
+	"github.com/smart-core-os/sc-api/go/types/time"
+	"google.golang.org/protobuf/types/known/timestamppb"
+)
+
+// Exports for the verification harness (/verif). Compiled only with -tags verif.
+
+// VerifCutKind names the four variants of the unexported cut interface.
+type VerifCutKind int
+
+const (
+	VerifBelowAll VerifCutKind = iota
+	VerifBelow
+	VerifAbove
+	VerifAboveAll
+)
+
+func verifMkCut(k VerifCutKind, ts *timestamppb.Timestamp) cut {
+	switch k {
+	case VerifBelowAll:
+		return cutBelowAll()
+	case VerifBelow:
+		return cutBelow(ts)
+	case VerifAbove:
+		return cutAbove(ts)
+	default:
+		return cutAboveAll()
+	}
+}
+
+func verifCutKind(c cut) (VerifCutKind, *timestamppb.Timestamp) {
+	switch v := c.(type) {
+	case *belowAll:
+		return VerifBelowAll, nil
+	case *below:
+		return VerifBelow, (*timestamppb.Timestamp)(v)
+	case *above:
+		return VerifAbove, (*timestamppb.Timestamp)(v)
+	default:
+		return VerifAboveAll, nil
+	}
+}
+
+// VerifCutCompare builds two cuts with the package's own constructors and returns this.CompareTo(that).
+func VerifCutCompare(thisKind VerifCutKind, thisTs *timestamppb.Timestamp, thatKind VerifCutKind, thatTs *timestamppb.Timestamp) int {
+	return verifMkCut(thisKind, thisTs).CompareTo(verifMkCut(thatKind, thatTs))
+}
+
+// VerifCutPeriod exposes cutPeriod: the kinds and timestamps of the lower and upper cut of p.
+func VerifCutPeriod(p *time.Period) (lowerKind VerifCutKind, lowerTs *timestamppb.Timestamp, upperKind VerifCutKind, upperTs *timestamppb.Timestamp) {
+	l, u := cutPeriod(p)
+	lowerKind, lowerTs = verifCutKind(l)
+	upperKind, upperTs = verifCutKind(u)
+	return
+}
